@@ -699,15 +699,39 @@ fn drain_order<Q: QueueLike>(q: &Q, hi: bool) -> Vec<Pair> {
 
 impl CapacityTwin {
     fn run<Q: QueueLike>(&self, q: &Q, m: &Model) -> Result<u64, String> {
-        let mut amounts: Vec<usize> = vec![0, 1, 2, 5, 100];
+        let mut amounts: Vec<usize> = vec![0, 1, 5, 100];
         if self.huge {
-            amounts.extend([1usize << 60, usize::MAX / 2, usize::MAX - 1, usize::MAX]);
+            amounts.extend([1usize << 60, usize::MAX - 1, usize::MAX]);
         }
         let mut caps: Vec<Op> = vec![Op::ShrinkToFit];
         for &a in &amounts {
             caps.extend([Op::Reserve(a), Op::ReserveExact(a), Op::TryReserve(a), Op::TryReserveExact(a)]);
         }
         let conts = core_ops(&self.universe, &self.prios, Q::DOUBLE);
+        // first continuation: also append of every 1- and 2-element queue (clashes included):
+        // which side append drains must not depend on capacities
+        let mut conts1 = conts.clone();
+        for &k in &self.universe {
+            for &p in &self.prios {
+                conts1.push(Op::Append(vec![(k, 0, p)]));
+                for &k2 in &self.universe {
+                    if k2 != k {
+                        conts1.push(Op::Append(vec![(k, 0, p), (k2, 0, self.prios[0])]));
+                    }
+                }
+            }
+        }
+        // a longer queue that clashes with every stored item (on a clash with a longer queue either
+        // priority may stay, but WHICH one may not depend on capacities)
+        let extra = self.universe.iter().max().copied().unwrap_or(0) + 1;
+        for &p in [self.prios[0], self.prios[self.prios.len() - 1]].iter() {
+            let mut big: Vec<Pair> = self.universe.iter().map(|&k| (k, 0, p)).collect();
+            big.extend((0..3).map(|i| (extra + i, 0, p)));
+            conts1.push(Op::Append(big));
+        }
+        conts1.push(Op::Retain(vec![self.universe[0]]));
+        conts1.push(Op::Extend(vec![(self.universe[0], 0, self.prios[0])], Hint { lo: 0, hi: None }));
+        conts1.push(Op::IterMut { steps: vec![ImStep { back: false, prio: Some(self.prios[self.prios.len() - 1]), payload: None }], end: End::Drop, via_ref: false });
         let mut cases = 0;
         for cap in &caps {
             let mut t = q.clone();
@@ -722,7 +746,7 @@ impl CapacityTwin {
             if drain_order(&t, true) != drain_order(q, true) || (Q::DOUBLE && drain_order(&t, false) != drain_order(q, false)) {
                 return Err(format!("{cap:?} changed the order of extraction"));
             }
-            for o1 in &conts {
+            for o1 in &conts1 {
                 for o2 in &conts {
                     cases += 1;
                     let mut a = q.clone();
